@@ -20,7 +20,7 @@ import (
 
 const modPath = "github.com/gethiox/HIDI"
 
-// expected HIDI packages; a load that yields a different set is a checker failure
+// expected HIDI packages; a load in which one of them is missing is a checker failure
 var expectedPkgs = []string{
 	modPath,
 	modPath + "/cmd/hidi",
@@ -133,8 +133,12 @@ func LoadRepo(repo string, goarch string) (*Program, error) {
 	sort.Strings(got)
 	want := append([]string{}, expectedPkgs...)
 	sort.Strings(want)
-	if strings.Join(got, ",") != strings.Join(want, ",") {
-		return nil, fmt.Errorf("package set mismatch: got %v want %v", got, want)
+	// every package the rules are anchored in must be there; additional packages of the module (code moved into a new
+	// package, a new helper package) are loaded and analysed like the others
+	for _, w := range want {
+		if p.Pkgs[w] == nil {
+			return nil, fmt.Errorf("package set mismatch: %s is missing (got %v)", w, got)
+		}
 	}
 	p.All = pkgs
 	p.buildSSA(pkgs)
